@@ -154,6 +154,10 @@ def main():
             generic_loop(mod, ctx)
         res.update(ctx.result())
         res['reach'] = sorted(reach) if reach is not None else None
+        import time as _t
+        res['counters']['workers_with_asserts_compiled_out'] = 0 if __debug__ else 1
+        res['counters']['workers_east_or_west_of_utc'] = 1 if _t.timezone != 0 else 0
+        res['counters']['workers_with_unavailable_locale'] = 1 if os.environ.get('LC_ALL', '').startswith('de_DE') else 0
     except BaseException as e:   # a crashed worker is inconclusive, never green
         res['crash'] = ''.join(traceback.format_exception(type(e), e, e.__traceback__))[-4000:]
     finally:
